@@ -15,7 +15,6 @@ type pinfo struct {
 	quiet   bool
 	ret     map[int]bool
 	dispRet bool
-	sole    bool
 }
 
 type monT struct {
@@ -29,7 +28,6 @@ type monT struct {
 	pend         []*pinfo
 	dispCalled   bool
 	dispRet      bool
-	dispEff      bool
 	watchCalled  bool
 	watchOk      bool
 	cancelCalled bool
@@ -59,14 +57,11 @@ func (m *monT) step(e hev) string {
 			return "call ids are not consecutive"
 		}
 		p := &pinfo{cid: e.C, op: e.Op, edits: m.edits, next: m.next, quiet: !m.rebuildPending() && !m.watchCalled,
-			ret: map[int]bool{}, dispRet: m.dispRet, sole: !m.dispCalled}
+			ret: map[int]bool{}, dispRet: m.dispRet}
 		for b := range m.ret {
 			p.ret[b] = true
 		}
 		if e.Op == "dispose" {
-			for _, q := range m.pend {
-				q.sole = false
-			}
 			m.dispCalled = true
 		}
 		if e.Op == "watch" {
@@ -81,7 +76,7 @@ func (m *monT) step(e hev) string {
 		if e.B != m.next || m.run != -1 {
 			return "S1: a build started while another one was running (or build numbers are not consecutive)"
 		}
-		if m.dispEff {
+		if m.dispRet {
 			return "S5: a build started after Dispose returned"
 		}
 		if !m.rebuildPending() && !m.watchCalled {
@@ -156,15 +151,12 @@ func (m *monT) step(e hev) string {
 			}
 			m.ret[b] = true
 		case e.Op == "cancel" && e.Rv.Kind == "unit":
-			if !(m.dispCalled || m.run == -1 || p.next <= m.run) {
+			if !(m.run == -1 || p.next <= m.run) {
 				return fmt.Sprintf("S4: Cancel returned while build %d, started before the call, is still running", m.run)
 			}
 		case e.Op == "dispose" && e.Rv.Kind == "unit":
-			if p.sole {
-				if m.run != -1 {
-					return fmt.Sprintf("S5: Dispose returned while build %d is still running", m.run)
-				}
-				m.dispEff = true
+			if m.run != -1 {
+				return fmt.Sprintf("S5: Dispose returned while build %d is still running", m.run)
 			}
 			m.dispRet = true
 		case e.Op == "watch" && e.Rv.Kind == "unit":
